@@ -324,7 +324,8 @@ func TestVerifC34LinkHeaderMalformed(t *testing.T) {
 			res = "accepted-faithfully"
 			want := x
 			switch kind {
-			case "trailing-garbage", "missing-type": // "password" is the only credential type there is
+			case "trailing-garbage", "missing-type", "truncated": // "password" is the only credential type there is;
+				// a cut right after the credential parameter is the missing-type case, any other cut cannot yield x
 			case "unquoted":
 				want.user, want.cred = "user", "pass"
 			default:
